@@ -261,8 +261,8 @@ def case_text(case):
 def state_machine_for(case):
     """(machine, input, plans) whose state `A` produces an output of exactly case['n'] characters"""
     kind, term, n = case["state"], case["terminal"], case["n"]
-    shape = {"pass": "obj", "task": "obj", "choice": "obj", "wait": "obj", "succeed": "obj",
-             "parallel": case.get("shape", "arr"), "map": "arr"}[kind]
+    shape = {"pass": "obj", "task": "obj", "choice": "obj", "wait": "obj", "succeed": "obj", "branchpass": "obj", "iterpass": "obj",
+             "branchsucceed": "obj", "parallel": case.get("shape", "arr"), "map": "arr"}[kind]
     doc = pad_doc(shape, n)
     tail = {"End": True} if term else {"Next": "B"}
     states = {"B": {"Type": "Succeed"}} if not term else {}
@@ -290,6 +290,20 @@ def state_machine_for(case):
         if shape == "arr2":
             brs.append({"StartAt": "Y", "States": {"Y": {"Type": "Pass", "Result": 0, "End": True}}})
         a = dict({"Type": "Parallel", "Branches": brs}, **tail)
+    elif kind in ("branchpass", "iterpass", "branchsucceed"):
+        # the measured state is the *last state of a branch / iteration*; the enclosing state drops the result
+        # (ResultPath null), so only that state's own check can refuse the value
+        if kind == "branchsucceed":
+            inner = {"StartAt": "X0", "States": {"X0": {"Type": "Pass", "Result": doc, "Next": "X"}, "X": {"Type": "Succeed"}}}
+            # (X0's own output is at n too: it has a Next, so change_state refuses it first — same verdict)
+        else:
+            inner = {"StartAt": "X", "States": {"X": {"Type": "Pass", "Result": doc, "End": True}}}
+        if kind == "iterpass":
+            a = {"Type": "Map", "ItemsPath": "$.items", "Iterator": inner, "ResultPath": None, "End": True}
+            data = {"items": [0]}
+        else:
+            a = {"Type": "Parallel", "Branches": [inner, {"StartAt": "Y", "States": {"Y": {"Type": "Pass", "End": True}}}],
+                 "ResultPath": None, "End": True}
     elif kind == "map":
         a = dict({"Type": "Map", "ItemsPath": "$.items",
                   "Iterator": {"StartAt": "X", "States": {"X": {"Type": "Pass", "Result": doc[0], "End": True}}}}, **tail)
@@ -516,7 +530,7 @@ def data_cases(chk, quick):
         cases.append({"stream": "reply", "site": "taskReply", "n": n, "kind": "notjson", "where": "malformed"})
     states = [("pass", False), ("pass", True), ("task", False), ("task", True), ("parallel", False),
               ("parallel", True), ("map", False), ("map", True), ("choice", False), ("wait", False),
-              ("wait", True), ("succeed", True)]
+              ("wait", True), ("succeed", True), ("branchpass", True), ("iterpass", True), ("branchsucceed", True)]
     for st, term in states:
         for n, where in sizes(rng, L_DATA, quick):
             if quick and where.startswith("far") and st not in ("pass", "task", "parallel"):
